@@ -8,6 +8,8 @@ import (
 	"fmt"
 	"io"
 	"os"
+	"os/exec"
+	"path/filepath"
 	"sort"
 	"strings"
 	"testing/synctest"
@@ -64,7 +66,11 @@ func (w *World) extraEnabled() []core.WCmd {
 	if p.CacheW > 0 {
 		for _, in := range w.insts {
 			if in.state == stCrashed || in.state == stStopped || in.state == stRefused {
-				switch r.Intn(4) {
+				switch r.Intn(5) {
+				case 4:
+					if recomputeBinary != "" && w.recomputes < 2 {
+						add(p.CacheW, core.Cmd{A: "cache-recompute", I: in.idx})
+					}
 				case 0:
 					add(p.CacheW, core.Cmd{A: "cache-delete", I: in.idx})
 				case 1:
@@ -132,10 +138,23 @@ func (w *World) extraExec(c core.Cmd) bool {
 		if in == nil || in.state == stRunning || in.state == stLoading {
 			return false
 		}
-		os.Remove(in.cache)
-		os.Remove(in.cache + "-journal")
+		removeCache(in.cache)
 		in.cacheEpoch++
 		w.sim.Probe("fault.cache.delete")
+		return true
+	case "cache-recompute":
+		in := w.inst(c.I)
+		if in == nil || in.state == stRunning || in.state == stLoading || recomputeBinary == "" {
+			return false
+		}
+		in.cacheEpoch++ // the old cache is gone in any case
+		if err := w.recomputeCache(in); err != nil {
+			w.sim.Logf("recompute-cache failed: %v", err)
+			w.sim.Probe("cache.recompute.failed")
+			return true
+		}
+		w.recomputes++
+		w.sim.Probe("fault.cache.recompute")
 		return true
 	case "cache-snapshot":
 		in := w.inst(c.I)
@@ -153,8 +172,8 @@ func (w *World) extraExec(c core.Cmd) bool {
 		if in == nil || in.state == stRunning || in.state == stLoading || in.cacheSnap == nil {
 			return false
 		}
+		removeCache(in.cache)
 		os.WriteFile(in.cache, in.cacheSnap, 0o644)
-		os.Remove(in.cache + "-journal")
 		in.cacheEpoch++
 		w.sim.Probe("fault.cache.rollback")
 		return true
@@ -529,3 +548,45 @@ func (w *World) epilogueSunset(primary *Instance) {
 var _ = sort.Ints
 var _ = context.Background
 var _ = fmt.Sprintf
+
+var recomputeBinary = os.Getenv("VERIF_RECOMPUTE_BINARY")
+
+// recomputeCache deletes the instance's cache and rebuilds it with the built
+// cmd/recompute-cache binary from a materialised copy of the durable storage.
+func (w *World) recomputeCache(in *Instance) error {
+	dir := filepath.Join(w.tmp, fmt.Sprintf("materialised-%d", w.recomputes))
+	for k, o := range in.store.objs {
+		p := filepath.Join(dir, filepath.FromSlash(k))
+		if err := os.MkdirAll(filepath.Dir(p), 0o755); err != nil {
+			return err
+		}
+		if err := os.WriteFile(p, o.data(), 0o644); err != nil {
+			return err
+		}
+	}
+	seedPath := filepath.Join(w.tmp, "seed.bin")
+	os.WriteFile(seedPath, logSeed, 0o600)
+	removeCache(in.cache)
+	cfg := filepath.Join(w.tmp, "recompute.yaml")
+	y := fmt.Sprintf("logs:\n  - shortname: simlog\n    secret: %s\n    cache: %s\n    localdirectory: %s\n", seedPath, in.cache, dir)
+	os.WriteFile(cfg, []byte(y), 0o644)
+	out, err := exec.Command(recomputeBinary, "-c", cfg, "-log", "simlog").CombinedOutput()
+	if err != nil {
+		msg := string(out)
+		if i := strings.Index(msg, `"msg"`); i >= 0 {
+			msg = msg[i:]
+		}
+		return fmt.Errorf("%v: %s", err, clip(msg))
+	}
+	return nil
+}
+
+func (o *Obj) data() []byte { return o.Data }
+
+// removeCache deletes a SQLite database with its journal / WAL side files (the
+// cache runs in WAL mode: a stale -wal next to a new database corrupts it).
+func removeCache(path string) {
+	for _, suf := range []string{"", "-journal", "-wal", "-shm"} {
+		os.Remove(path + suf)
+	}
+}
